@@ -1,1 +1,162 @@
--- C01: property theorems (to be filled in)
+/-
+C01 — the generated job computes exactly the rows and values the query denotes.
+
+`Gen.compile` (lean/FaxVerif/Gen/Lite.lean) is a compositional model of the translator for the
+fragment F0-lite; on every run it is tied to the real translator by equality of the emitted text
+(modulo renaming of generated identifiers) on generated fragment queries and all three backends.
+`Linq.denote` is the ordinary Python/LINQ meaning of the user-level query; `Cpp.runEvent` is the
+meaning of the emitted C++. The theorems below relate the two for ALL queries of the stated
+shape, ALL events, ALL number models — no bound on chain length, expression size, number of
+columns or collection sizes.
+
+Full statement of the property (not proved at this strength):
+    ∀ b q, WellTyped q → ∃ p, pipeline b q = ok p ∧ ∀ ev, runEvent p ev = denoteRows q ev
+What is proved: the success direction (`denoteRows = ok rows → runEvent = ok rows`) for
+  * element-level rows   ds.SelectMany(e → chain).Select(x → {…pure…})          (`elemRows_correct`)
+  * event-level scalars built from Count / Sum over chains and arithmetic          (`scalar_correct`)
+for backends satisfying `BackendOK` (ATLAS, CMS AOD); fault equivalence is C04's; deeper nesting,
+First/and/or/if-else inside expressions, and miniAOD's token idiom are covered by the text tie and
+by differential execution of the implementation's own output against `denote`, not by a theorem.
+-/
+import FaxVerif.Gen.EECorrect
+namespace FaxVerif.C01
+open FaxVerif.Cpp FaxVerif.Linq FaxVerif.Gen
+variable {D : Type}
+
+/-- **C01.pure_expr_correct** — every pure element expression (constants, method calls on the
+element, `+ - * /`, comparisons, unary minus, not — arbitrarily nested) is translated to a C++
+expression that evaluates to exactly the query's value or fault; `/` is real division (the emitted
+`static_cast<double>` when both operands are integers), and the value has the declared type. -/
+theorem pure_expr_correct (C : QCtx D) (σ : Env D) (cur : CExpr) (curTy : Option Ty) (ptr : Bool)
+    (v : Val D) (x : String) (ρ : LEnv D)
+    (hcur : evalE C.N σ cur = .ok v) (hty : ∀ t, curTy = some t → HasTy v t)
+    (pe : PE) (hw : wtPE curTy pe = true) (hm : MethTyped v (methsPE pe)) :
+    evalE C.N σ (compPE ptr cur (curT curTy) pe) = denote C ((x, v) :: ρ) (peQ x pe) ∧
+    ∀ w, denote C ((x, v) :: ρ) (peQ x pe) = .ok w → HasTy w (tyPE (curT curTy) pe) :=
+  pe_correct C σ cur curTy ptr v x ρ hcur hty pe hw hm
+
+/-- **C01.elemRows_correct_partial** — one row per element of the outermost sequence, none where
+a `Where` rejects, in sequence order, every column holding the value of its expression:
+for `ds.SelectMany(e → coll(bank).{Select|Where}*).Select(x → {name: pure expr, …})` the emitted
+package writes exactly the rows the query denotes. (Partial: success direction; `BackendOK`.) -/
+theorem elemRows_correct_partial (B : Backend) (hB : BackendOK B) (nm cn : Nat → String)
+    (hinj : ∀ i j, nm i = nm j → i = j) (hcinj : ∀ i j, cn i = cn j → i = j)
+    (hres : ∀ j, nm j ≠ "result") (hcres : ∀ k, cn k ≠ "result") (hdisj : ∀ j k, nm j ≠ cn k)
+    (QC : QCtx D) (hcollT : ∀ name, B.collType name = QC.collType name)
+    (c : Chain) (cols : List (String × PE))
+    (hwt : wtSteps none c.steps = true)
+    (hwtc : ∀ p ∈ cols, wtPE (chainTy none c.steps) p.2 = true)
+    (hmt : ∀ cty l, QC.ev.find c.bank = some (cty, .vec l) →
+        ∀ v ∈ l, MethTyped v (methsSteps c.steps) ∧ ∀ p ∈ cols, MethTyped v (methsPE p.2))
+    (σc : Env D) (hσ : ∀ k, k < cols.length → (σc (cn k)).isSome = true)
+    (rows : List (List (Val D)))
+    (hden : denoteRows QC (FQ.toQuery (.elemRows c cols)) = .ok rows) :
+    ∃ σ', runEvent (compile B nm cn (.elemRows c cols)) QC.N σc QC.ev = .ok (rows, σ') :=
+  elemRows_correct B hB nm cn hinj hcinj hres hcres hdisj QC hcollT c cols hwt hwtc hmt σc hσ rows hden
+
+/-- **C01.scalar_correct_partial** — event-level scalars: for every expression built from
+constants, `Count()` / `Sum()` over chains and arithmetic / comparisons, running the emitted
+statements (retrieval, one loop per aggregate with the accumulator declared outside the loop)
+leaves a state in which the emitted value expression evaluates to what the query denotes, with the
+declared type, touching nothing but the fragment's own generated names.
+(Partial: success direction; a floating-point `Sum` must range over ≥1 element — see `SumNonEmpty`.) -/
+theorem scalar_correct_partial (C : Ctx D) (QC : QCtx D) (hN : QC.N = C.N) (hev : QC.ev = C.ev)
+    (B : Backend) (hB : BackendOK B) (nm : Nat → String)
+    (hinj : ∀ i j, nm i = nm j → i = j) (hres : ∀ j, nm j ≠ "result")
+    (hcollT : ∀ name, B.collType name = QC.collType name)
+    (e : EE) (n : Nat) (s : St D) (v : Val D)
+    (hdone : DeclsDone C.N (compEE B nm e n).decls s.env)
+    (hwt : wtEE e = true) (hct : ∀ c ∈ chainsEE e, ChainTyped QC c) (hsn : ∀ c ∈ sumChainsEE e, SumNonEmpty QC c)
+    (hden : denote QC [("e", evtVal)] (eeQ "e" e) = .ok v) :
+    ∃ s', execs C (compEE B nm e n).stmts s = .ok s' ∧ s'.rows = s.rows ∧
+      evalE C.N s'.env (compEE B nm e n).val = .ok v ∧ HasTy v (tyEE e) ∧
+      (∀ y, ¬ Touch nm n (compEE B nm e n).next y → s'.env y = s.env y) :=
+  compEE_correct C QC hN hev B hB nm hinj hres hcollT e n s v hdone hwt hct hsn hden
+
+/-- **C01.loop_is_fold** — the loop emitted for a chain performs, over the collection's elements
+in order, the fold of the continuation over exactly the elements the query keeps. -/
+theorem loop_is_fold {β : Type} (C : Ctx D) (QC : QCtx D) (hN : QC.N = C.N)
+    (B : Backend) (hB : BackendOK B) (nm : Nat → String)
+    (hinj : ∀ i j, nm i = nm j → i = j) (hres : ∀ j, nm j ≠ "result")
+    (c : Chain) (n : Nat) (K : CExpr → Option Ty → List Stmt)
+    (cty : String) (l ws : List (Val D))
+    (hcoll : B.collType c.coll = some cty) (hfind : C.ev.find c.bank = some (cty, .vec l))
+    (hwt : wtSteps none c.steps = true) (hmt : ∀ v ∈ l, MethTyped v (methsSteps c.steps))
+    (P : St D → β → Prop) (g : β → Val D → Except Fault β) (Q : Val D → Prop) (hQ : ∀ v ∈ l, Q v)
+    (hstable : ∀ (s s' : St D) b, P s b → s'.rows = s.rows →
+        (∀ y, ¬ Touch nm n (compChain B nm c n K).next y → s'.env y = s.env y) → P s' b)
+    (hK : ∀ (s : St D) b b' w (v : Val D), P s b → g b w = .ok b' →
+        evalE C.N s.env (stepConds B.elemPtr (.var (nm (n + 1))) none c.steps).2.1 = .ok w →
+        (∀ t, (stepConds B.elemPtr (.var (nm (n + 1))) none c.steps).2.2 = some t → HasTy w t) →
+        ((stepConds B.elemPtr (.var (nm (n + 1))) none c.steps).2.2 = none → w = v ∧ Q v) →
+        ∃ s', execs C (K (stepConds B.elemPtr (.var (nm (n + 1))) none c.steps).2.1
+                          (stepConds B.elemPtr (.var (nm (n + 1))) none c.steps).2.2) s = .ok s' ∧ P s' b')
+    (s : St D) (b b' : β) (hx : (s.env (nm n)).isSome = true)
+    (hel : elemsSem QC c.steps l = .ok ws) (hfold : foldG g ws b = .ok b') (hP : P s b) :
+    ∃ s', execs C (compChain B nm c n K).stmts s = .ok s' ∧ P s' b' :=
+  compChain_correct C QC hN B hB nm hinj hres c n K cty l ws hcoll hfind hwt hmt P g Q hQ hstable hK s b b' hx hel hfold hP
+
+/-! ### non-vacuity -/
+
+/-- the two backends the theorems apply to -/
+def atlasB : Backend :=
+  { name := "atlas", elemPtr := true, handleTy := fun t => "const " ++ t ++ "*", how := "atlas",
+    resultInit := some (.int 0), fillTree := id, treeName := "atlas_xaod_tree",
+    collType := fun n => if n = "As" then some "xAOD::AaContainer" else none, elemType := fun _ => none }
+
+example : wtSteps none [.whr (.cmp .gt (.meth "d" .double) (.int 1)), .sel (.bin .div (.meth "i" .int) (.int 2))] = true := by decide
+example : wtPE (some .double) (.bin .add .it (.dbl 5 (-1))) = true := by decide
+example : wtEE (.bin .div (.count ⟨"As", "ba", []⟩) (.int 2)) = true := by decide
+
+end FaxVerif.C01
+
+namespace FaxVerif.C01
+open FaxVerif.Cpp FaxVerif.Linq FaxVerif.Gen
+
+/-! ### the hypotheses on backends and name supplies are satisfiable -/
+
+def cmsAodB : Backend :=
+  { name := "cms_aod", elemPtr := false, handleTy := fun t => "edm::Handle<" ++ t ++ ">", how := "label",
+    resultInit := none, fillTree := fun _ => "", treeName := "cms_aod_tree",
+    collType := fun n => if n = "As" then some "reco::AaCollection" else none, elemType := fun _ => none }
+
+theorem ne_of_head (a b : String) (h : a.toList.head? ≠ b.toList.head?) : a ≠ b := fun e => h (by rw [e])
+
+theorem backendOK_atlas : BackendOK atlasB := by
+  refine ⟨by decide, ?_, ?_, Or.inr rfl⟩
+  · intro t
+    simp [atlasB, isVecType, String.toList_append, List.isPrefixOf]
+  · intro t
+    have h : (atlasB.handleTy t).toList.head? = some 'c' := by simp [atlasB, String.toList_append]
+    refine ⟨ne_of_head _ _ ?_, ne_of_head _ _ ?_, ne_of_head _ _ ?_, ne_of_head _ _ ?_⟩ <;> (rw [h]; decide)
+
+theorem backendOK_cmsAod : BackendOK cmsAodB := by
+  refine ⟨by decide, ?_, ?_, Or.inl rfl⟩
+  · intro t
+    simp [cmsAodB, isVecType, String.toList_append, List.isPrefixOf]
+  · intro t
+    have h : (cmsAodB.handleTy t).toList.head? = some 'e' := by simp [cmsAodB, String.toList_append]
+    refine ⟨ne_of_head _ _ ?_, ne_of_head _ _ ?_, ne_of_head _ _ ?_, ne_of_head _ _ ?_⟩ <;> (rw [h]; decide)
+
+/-- a name supply satisfying the hypotheses of the theorems -/
+def exNm (k : Nat) : String := String.ofList (List.replicate (k + 1) 'v')
+def exCn (k : Nat) : String := String.ofList ('_' :: List.replicate (k + 1) 'c')
+
+theorem exNm_inj : ∀ i j, exNm i = exNm j → i = j := by
+  intro i j h
+  have := congrArg List.length (String.ofList_injective h)
+  simpa using this
+
+theorem exCn_inj : ∀ i j, exCn i = exCn j → i = j := by
+  intro i j h
+  have := congrArg List.length (String.ofList_injective h)
+  simpa using this
+
+theorem exNm_head (j : Nat) : (exNm j).toList.head? = some 'v' := by simp [exNm, List.replicate_succ]
+theorem exCn_head (k : Nat) : (exCn k).toList.head? = some '_' := by simp [exCn]
+
+theorem exNm_ne_result : ∀ j, exNm j ≠ "result" := fun j => ne_of_head _ _ (by rw [exNm_head]; decide)
+theorem exCn_ne_result : ∀ k, exCn k ≠ "result" := fun k => ne_of_head _ _ (by rw [exCn_head]; decide)
+theorem exNm_ne_exCn : ∀ j k, exNm j ≠ exCn k := fun j k => ne_of_head _ _ (by rw [exNm_head, exCn_head]; decide)
+
+end FaxVerif.C01
